@@ -94,7 +94,8 @@ SPECS = {
     },
     "C01": {
         "scenarios": [{"name": "protocol", "runs": {"quick": 120, "thorough": 1000000}, "chunks": {"quick": 1, "thorough": 1}},
-                      {"name": "peers", "runs": {"quick": 60, "thorough": 1000000}, "chunks": {"quick": 1, "thorough": 1}}],
+                      {"name": "peers", "runs": {"quick": 60, "thorough": 1000000}, "chunks": {"quick": 1, "thorough": 1}},
+                      {"name": "rollout", "runs": {"quick": 6, "thorough": 1000000}, "chunks": {"quick": 1, "thorough": 1}}],
         "budget_s": {"quick": 600, "thorough": 1200},
         "rule": "one evaluation = one seeded operation sequence (reset / step / functional calls / 256-reset batch, 5..60 ops) on a wrapper-stack "
         "program over a drawn SimMDP; every step and reset is refined against RefMDP∘RefStack from the INPUT state (reward, flags, fresh state on "
@@ -122,6 +123,7 @@ SPECS = {
             {"name": "collect_on", "runs": {"quick": 160, "thorough": 1000000}, "chunks": {"quick": 1, "thorough": 1}},
             {"name": "offpolicy", "runs": {"quick": 120, "thorough": 1000000}, "chunks": {"quick": 1, "thorough": 1}},
             {"name": "protocol", "runs": {"quick": 60, "thorough": 1000000}, "chunks": {"quick": 1, "thorough": 1}},
+            {"name": "rollout", "runs": {"quick": 6, "thorough": 1000000}, "chunks": {"quick": 1, "thorough": 1}},
         ],
         "budget_s": {"quick": 600, "thorough": 1200},
         "rule": "one evaluation = one seeded run with an injected fault or mode knob: (a) F.node_perturb: one parallel node's start state / policy "
@@ -201,5 +203,18 @@ SPECS = {
         "real": ["lerax learn/reset/iteration of PPO, A2C, REINFORCE, DQN, SAC with real MLP policies", "LoggingCallback, ProgressBarCallback, CallbackList, ConsoleBackend, TensorBoardBackend (tmp dir), video recorder incl. pygame rendering of CartPole",
                  "CartPole / Pendulum under TimeLimit, SimMDP under TimeLimit"],
         "stub": ["RecordingBackend", "SimExecutor (parked real thread, released at plan-chosen points)", "simulated datetime for the run name", "SimMDP in some classes"],
+    },
+    "C02": {
+        "scenarios": [{"name": "rollout", "runs": {"quick": 12, "thorough": 1000000}, "chunks": {"quick": 1, "thorough": 1}}],
+        "budget_s": {"quick": 900, "thorough": 2400},
+        "rule": "one evaluation = one seeded auto-reset rollout (50..600 steps) of a built-in environment (constructor variant, optional wrapper "
+        "stack) driven by a seeded adversary action schedule (uniform samples / long hold of the low or high bound corner / alternation between "
+        "opposite corners with a drawn period / mixed corners); invariants after every step: observation in the declared space with canonical "
+        "shape and dtype and no NaN, generated action in the action space, finite float scalar reward, boolean scalar flags; non-trivial = an "
+        "episode end or a bound-corner action occurred; distinct = distinct (environment class, adversary mode, fired event kinds)",
+        "assumptions": ["quick tier: 5 classic-control environments (Euler and Tsit5) + 3 MuJoCo; thorough tier: all 11 MuJoCo and the 3 Unitree G1 tasks",
+                        "Python-side-state independence is decided by the re-execution digests (same process) of the driver"],
+        "real": ["all built-in environments incl. diffrax solves and mjx.step, wrappers over them, spaces' contains/sample"],
+        "stub": ["adversary action schedule"],
     },
 }
